@@ -1047,6 +1047,9 @@ func checkC09(in *exInput) []exFinding {
 	// full expansion; ContinueOnError about unresolvable ones)
 	o := in.opts()
 	res := exExpand(g, exOpts{Skip: true, Abs: o.Abs, Built: o.Built})
+	if res.Panic != "" && !strings.Contains(res.Panic, "called using nil") {
+		return []exFinding{{Shape: "panic", What: "the skip-schemas expansion panics", Obs: exClip(res.Panic, 300)}}
+	}
 	if !res.ok() {
 		return nil
 	}
@@ -2285,6 +2288,20 @@ func oracleC17(r *rng, n int, tier string) *oracleResult {
 			ownTasks := make([][]int, len(own))
 			for gi, g := range own {
 				ownTasks[gi] = append(ownTasks[gi], add(g.call("expand_spec", exOpts{Abs: rr.chance(1, 2), Skip: rr.chance(1, 4)})))
+				// the same documents with a reference of its own that cannot be resolved (another one for every caller and every
+				// round), expanded by a caller who asked to continue: what is reported, and how, is that caller's business alone
+				if gd, ok := exDecode(g.Docs[g.Root]).(map[string]interface{}); ok {
+					defs, _ := gd["definitions"].(map[string]interface{})
+					if defs == nil {
+						defs = map[string]interface{}{}
+						gd["definitions"] = defs
+					}
+					defs["dangling"] = map[string]interface{}{"$ref": fmt.Sprintf("#/definitions/missing-%d-%d-%d", round, N, gi)}
+					defs["away"] = map[string]interface{}{"$ref": fmt.Sprintf("gone-%d-%d-%d.json#/definitions/x", round, N, gi)}
+					gf := g.clone()
+					gf.Docs[g.Root], _ = json.Marshal(gd)
+					ownTasks[gi] = append(ownTasks[gi], add(gf.call("expand_spec", exOpts{Cont: true, Skip: rr.chance(1, 4)})))
+				}
 				for _, ec := range exElementCases(g) {
 					if ec.Op == "expand_schema" && ec.Form == "ref" && len(ownTasks[gi]) < 4 {
 						c := g.call("expand_schema", exOpts{})
